@@ -126,6 +126,14 @@ impl Prop for C09 {
             let base = Cfg::sample(&mut rng);
             let lf = Cfg { crlf: false, ..base.clone() };
             let cr = Cfg { crlf: true, ..base.clone() };
+            // already formatted text as input (its literals sit at their final indentation, so nothing but
+            // the terminators is left to change), for inputs with multi-line literals
+            if input.contains("'''") && rng.chance(1, 2) {
+                if let Some((f, _)) = common::run(&mut out, &lf, &input) {
+                    input = f;
+                    out.count("inputs_already_formatted_under_lf");
+                }
+            }
             let Some((o_lf, obs_lf)) = common::run(&mut out, &lf, &input) else { continue };
             let Some((o_cr, obs_cr)) = common::run(&mut out, &cr, &input) else { continue };
             let fallback = obs_lf.has_fallback() || obs_cr.has_fallback();
@@ -152,6 +160,10 @@ impl Prop for C09 {
                     "wrap-fallback"
                 } else if wf::mlstr_starts_logical_line(&input) {
                     "mlstr-first-on-logical-line"
+                } else if (obs_lf.reflow_cache_hit() || obs_cr.reflow_cache_hit()) && input.contains("'''") {
+                    // only one of the two executions re-indents a literal (its terminators change) and then
+                    // re-wraps with stale child-line solutions
+                    "reflow-child-cache"
                 } else {
                     "lf-crlf-results-differ"
                 };
@@ -164,7 +176,13 @@ impl Prop for C09 {
             if !has_verbatim_multiline(&input, base.format_multiline_strings) && !lone_cr && !o_lf.contains('\r') && !fallback {
                 out.count("lf_crlf_exact_substitution_compared");
                 if o_lf.replace('\n', "\r\n") != o_cr {
-                    let class = if wf::mlstr_starts_logical_line(&input) { "mlstr-first-on-logical-line" } else { "lf-crlf-results-differ" };
+                    let class = if wf::mlstr_starts_logical_line(&input) {
+                        "mlstr-first-on-logical-line"
+                    } else if (obs_lf.reflow_cache_hit() || obs_cr.reflow_cache_hit()) && input.contains("'''") {
+                        "reflow-child-cache"
+                    } else {
+                        "lf-crlf-results-differ"
+                    };
                     let at = o_lf.replace('\n', "\r\n").bytes().zip(o_cr.bytes()).position(|(x, y)| x != y).unwrap_or(0);
                     out.violate("C09", class, format!("{kind} [{}] the crlf result is not the lf result with each terminator substituted (first difference at byte {at}: …{:?}…)", base.short(), excerpt(&o_cr, at, 30)), &input, Some(&cr));
                 }
@@ -182,6 +200,8 @@ impl Prop for C09 {
                             "wrap-fallback"
                         } else if wf::mlstr_starts_logical_line(&x_lf) {
                             "mlstr-first-on-logical-line"
+                        } else if (oa.reflow_cache_hit() || ob.reflow_cache_hit()) && x_lf.contains("'''") {
+                            "reflow-child-cache"
                         } else {
                             "input-endings-matter"
                         };
